@@ -356,8 +356,8 @@ impl<'a> LoweringManager<'a> {
         let mut s2 = s2.iter().flat_map(|it| self.lower_stmt(it)).collect_vec();
         for (n, t, e1, e2) in final_assignments {
           let wasm_type = self.type_cx.lower(t);
-          let e1 = self.lower_expr(e1);
-          let e2 = self.lower_expr(e2);
+          let e1 = self.lower_expr_assigned_to(e1, wasm_type);
+          let e2 = self.lower_expr_assigned_to(e2, wasm_type);
           s1.push(wasm::Instruction::Inline(self.set(*n, wasm_type, e1)));
           s2.push(wasm::Instruction::Inline(self.set(*n, wasm_type, e2)));
         }
@@ -403,8 +403,8 @@ impl<'a> LoweringManager<'a> {
         let break_collector = *break_collector;
         let break_collector_type = *break_collector_type;
         if let Some(c) = break_collector {
-          let e = self.lower_expr(e);
           let t = break_collector_type.unwrap();
+          let e = self.lower_expr_assigned_to(e, t);
           vec![
             wasm::Instruction::Inline(self.set(c, t, e)),
             wasm::Instruction::UnconditionalJump(exit_label),
@@ -426,7 +426,7 @@ impl<'a> LoweringManager<'a> {
           .iter()
           .map(|it| {
             let t = self.type_cx.lower(&it.type_);
-            let e = self.lower_expr(&it.initial_value);
+            let e = self.lower_expr_assigned_to(&it.initial_value, t);
             wasm::Instruction::Inline(self.set(it.name, t, e))
           })
           .collect_vec();
@@ -434,7 +434,7 @@ impl<'a> LoweringManager<'a> {
           statements.iter().flat_map(|it| self.lower_stmt(it)).collect_vec();
         for v in loop_variables {
           let t = self.type_cx.lower(&v.type_);
-          let e = self.lower_expr(&v.loop_value);
+          let e = self.lower_expr_assigned_to(&v.loop_value, t);
           loop_instructions.push(wasm::Instruction::Inline(self.set(v.name, t, e)));
         }
         loop_instructions.push(wasm::Instruction::UnconditionalJump(continue_label));
@@ -475,9 +475,9 @@ impl<'a> LoweringManager<'a> {
       }
       lir::Statement::LateInitAssignment { name, assigned_expression } => {
         // For late init, the type was already declared, so we just get it from the expression
-        let assigned = self.lower_expr(assigned_expression);
         // The type should already be in local_variables from LateInitDeclaration
         let t = self.local_variables.get(name).copied().unwrap_or(wasm::Type::Int32);
+        let assigned = self.lower_expr_assigned_to(assigned_expression, t);
         vec![wasm::Instruction::Inline(self.set(*name, t, assigned))]
       }
       lir::Statement::LateInitDeclaration { name, type_ } => {
@@ -549,6 +549,27 @@ impl<'a> LoweringManager<'a> {
         wasm::InlineInstruction::Const(i32::try_from(*index).unwrap())
       }
     }
+  }
+
+  /// Lower an expression that is stored into a variable of type `target`. A variable kept as a
+  /// generic `(ref eq)` (e.g. the `_this` of a method) needs a downcast when the target is a
+  /// specific struct type, otherwise the emitted module does not validate.
+  fn lower_expr_assigned_to(
+    &mut self,
+    e: &lir::Expression,
+    target: wasm::Type,
+  ) -> wasm::InlineInstruction {
+    if let lir::Expression::Variable(n, _) = e
+      && matches!(self.local_variables.get(n), Some(wasm::Type::Eq))
+      && let wasm::Type::Reference(target_ref) = target
+    {
+      let local_get = self.get_without_type_update(*n);
+      return wasm::InlineInstruction::Cast {
+        pointer_type: lir::Type::Id(target_ref),
+        value: Box::new(local_get),
+      };
+    }
+    self.lower_expr(e)
   }
 
   fn lower_expr_with_reference_type(
